@@ -7,8 +7,8 @@
 //!                  (faithful text, accessors, parent).
 //!  2. bytes      : every octet 0..=255 substituted/inserted at every position
 //!                  of two seed URIs, and as join argument.
-//!  3. rsync.pairs / https.pairs : all ordered pairs of the accepted sets, cut
-//!                  at the largest tail length whose accepted set fits a cap.
+//!  3. rsync.pairs / https.pairs : all ordered pairs of the accepted sets up
+//!                  to a stated tail length.
 //!  4. rsync.join / https.join   : all (u, p), p in SIGMA^{<=K}.
 //!  5. rsync.triples / https.triples : all triples of a denser small domain.
 //!
@@ -22,7 +22,7 @@ use std::hash::{Hash, Hasher};
 use std::sync::Mutex;
 use rayon::prelude::*;
 use rpki::uri::{Https, Rsync};
-use rpki_verif::engine::enumerate::{par_chunks, seq_at, seq_count};
+use rpki_verif::engine::enumerate::{seq_at, seq_count};
 use rpki_verif::{guard, hex, Ctx};
 use serde_json::json;
 
@@ -173,19 +173,19 @@ fn valid_https(r: &Https) -> Result<(), String> {
 // ------------------------------------------------------------ unary oracles
 
 /// All oracles about one accepted rsync URI. `wit` renders the input.
-fn unary_rsync(ctx: &Ctx, text: &[u8], u: &Rsync, wit: &dyn Fn() -> String, oc: &mut Oc) {
+fn unary_rsync(fl: &mut Fails, text: &[u8], u: &Rsync, wit: &dyn Fn() -> String, oc: &mut Oc) {
     // accepted => grammar
     let m = match model_rsync(text) {
         Ok(m) => m,
-        Err(e) => { ctx.fail("C12.rsync.parse.sound", wit(), format!("accepted although the grammar forbids it: {e}")); return }
+        Err(e) => { fl.fail("C12.rsync.parse.sound", wit(), format!("accepted although the grammar forbids it: {e}")); return }
     };
-    ctx.check("C12.rsync.parse.faithful", wit, || {
+    fl.check("C12.rsync.parse.faithful", wit, || {
         if u.as_slice() != text || u.as_str().as_bytes() != text || u.to_bytes().as_ref() != text || u.to_string().as_bytes() != text {
             return Err(format!("text changed to {:?}", u.as_str()))
         }
         Ok(())
     });
-    ctx.check("C12.rsync.accessors", wit, || {
+    fl.check("C12.rsync.accessors", wit, || {
         let mut re = m.scheme.to_vec();
         re.extend_from_slice(u.authority().as_bytes()); re.push(b'/');
         re.extend_from_slice(u.module_name().as_bytes()); re.push(b'/');
@@ -201,19 +201,19 @@ fn unary_rsync(ctx: &Ctx, text: &[u8], u: &Rsync, wit: &dyn Fn() -> String, oc: 
         if u.path_is_dir() != (m.path.is_empty() || m.path.ends_with(b"/")) { return Err("path_is_dir".into()) }
         Ok(())
     });
-    ctx.check("C12.rsync.eq.reflexive", wit, || {
+    fl.check("C12.rsync.eq.reflexive", wit, || {
         let c = u.clone();
         if !(*u == c) || h(u) != h(&c) { return Err("a URI is not == its clone or hashes differently".into()) }
         Ok(())
     });
     // parent
     match guard(|| u.parent()) {
-        Err(p) => ctx.fail("C12.rsync.parent.valid", wit(), p),
+        Err(p) => fl.fail("C12.rsync.parent.valid", wit(), p),
         Ok(None) => bump(oc, "rsync-parent-none"),
         Ok(Some(p)) => {
             bump(oc, "rsync-parent-some");
-            ctx.check("C12.rsync.parent.valid", wit, || valid_rsync(&p));
-            ctx.check("C12.rsync.parent.is_parent", wit, || {
+            fl.check("C12.rsync.parent.valid", wit, || valid_rsync(&p));
+            fl.check("C12.rsync.parent.is_parent", wit, || {
                 if !p.is_parent_of(u) { return Err(format!("parent {:?} is not is_parent_of its child", p.as_str())) }
                 // text model as well: the child lies beneath the parent
                 let pm = model_rsync(p.as_slice()).map_err(|e| e.to_string())?;
@@ -226,18 +226,18 @@ fn unary_rsync(ctx: &Ctx, text: &[u8], u: &Rsync, wit: &dyn Fn() -> String, oc: 
     }
 }
 
-fn unary_https(ctx: &Ctx, text: &[u8], u: &Https, wit: &dyn Fn() -> String, oc: &mut Oc) {
+fn unary_https(fl: &mut Fails, text: &[u8], u: &Https, wit: &dyn Fn() -> String, oc: &mut Oc) {
     let m = match model_https(text) {
         Ok(m) => m,
-        Err(e) => { ctx.fail("C12.https.parse.sound", wit(), format!("accepted although the grammar forbids it: {e}")); return }
+        Err(e) => { fl.fail("C12.https.parse.sound", wit(), format!("accepted although the grammar forbids it: {e}")); return }
     };
-    ctx.check("C12.https.parse.faithful", wit, || {
+    fl.check("C12.https.parse.faithful", wit, || {
         if u.as_slice() != text || u.as_str().as_bytes() != text || u.to_string().as_bytes() != text {
             return Err(format!("text changed to {:?}", u.as_str()))
         }
         Ok(())
     });
-    ctx.check("C12.https.accessors", wit, || {
+    fl.check("C12.https.accessors", wit, || {
         if !u.scheme().is_https() || !m.scheme[..5].eq_ignore_ascii_case(u.scheme().as_str().as_bytes()) { return Err("scheme()".into()) }
         let mut re = m.scheme.to_vec();
         re.extend_from_slice(u.authority().as_bytes());
@@ -249,19 +249,19 @@ fn unary_https(ctx: &Ctx, text: &[u8], u: &Https, wit: &dyn Fn() -> String, oc: 
         if u.canonical_authority().as_bytes() != lower(m.authority) { return Err(format!("canonical_authority={:?}", u.canonical_authority())) }
         Ok(())
     });
-    ctx.check("C12.https.eq.reflexive", wit, || {
+    fl.check("C12.https.eq.reflexive", wit, || {
         let c = u.clone();
         if !(*u == c) || h(u) != h(&c) { return Err("a URI is not == its clone or hashes differently".into()) }
         Ok(())
     });
     if m.authority.is_empty() { bump(oc, "https-empty-authority-accepted") }
     match guard(|| u.parent()) {
-        Err(p) => ctx.fail("C12.https.parent.valid", wit(), p),
+        Err(p) => fl.fail("C12.https.parent.valid", wit(), p),
         Ok(None) => bump(oc, "https-parent-none"),
         Ok(Some(p)) => {
             bump(oc, "https-parent-some");
-            ctx.check("C12.https.parent.valid", wit, || valid_https(&p));
-            ctx.check("C12.https.parent.is_parent", wit, || {
+            fl.check("C12.https.parent.valid", wit, || valid_https(&p));
+            fl.check("C12.https.parent.is_parent", wit, || {
                 let pm = model_https(p.as_slice()).map_err(|e| e.to_string())?;
                 if !beneath(&https_prefix_key(&pm), &https_dir(pm.path), &https_prefix_key(&m), m.path) {
                     return Err(format!("child does not lie beneath parent {:?}", p.as_str()))
@@ -296,16 +296,25 @@ fn mk_hu(texts: &[Vec<u8>]) -> Vec<HU> {
     }).collect()
 }
 
-/// Largest tail length whose cumulative accepted count stays within `cap`.
-fn cut(by_len: &BTreeMap<usize, Vec<Vec<u8>>>, cap: usize) -> (usize, Vec<Vec<u8>>) {
-    let mut out = Vec::new(); let mut l_done = 0;
-    for (l, v) in by_len { if out.len() + v.len() > cap { break } out.extend(v.iter().cloned()); l_done = *l; }
-    (l_done, out)
+/// All stored URIs with tail length <= l, in enumeration order.
+fn upto(by_len: &BTreeMap<usize, Vec<Vec<u8>>>, l: usize) -> Vec<Vec<u8>> {
+    by_len.iter().filter(|(k, _)| **k <= l).flat_map(|(_, v)| v.iter().cloned()).collect()
+}
+fn sizes(by_len: &BTreeMap<usize, Vec<Vec<u8>>>) -> serde_json::Value {
+    json!(by_len.iter().map(|(k, v)| (k.to_string(), v.len())).collect::<BTreeMap<_, _>>())
 }
 
 fn all_strings(alpha: &[u8], max_len: u32) -> Vec<Vec<u8>> {
     let k = alpha.len() as u64; let mut idx = Vec::new();
     (0..seq_count(k, max_len)).map(|i| { seq_at(k, max_len, i, &mut idx); idx.iter().map(|&x| alpha[x]).collect() }).collect()
+}
+
+type Stored = Mutex<Vec<(usize, u64, usize, Vec<u8>)>>;
+fn group(m: Stored) -> BTreeMap<usize, Vec<Vec<u8>>> {
+    let mut v = m.into_inner().unwrap(); v.sort();
+    let mut out: BTreeMap<usize, Vec<Vec<u8>>> = BTreeMap::new();
+    for (l, _, _, t) in v { out.entry(l).or_default().push(t) }
+    out
 }
 
 // --------------------------------------------------------------------- main
@@ -314,17 +323,26 @@ fn main() {
     let ctx = Ctx::new("C12", "exploration");
     ctx.assume("the grammar in the doc comments of src/uri.rs (permitted characters; rsync://authority/module/path with non-empty authority and module, no empty or dot segments; https://authority[/path]) is the specification");
     ctx.assume("std::hash::DefaultHasher::new() is deterministic; a property-level hash disagreement would show with any hasher");
-    let thorough = ctx.tier.is_thorough();
+
+    // bounds per tier (tail lengths over the 7-symbol alphabet)
+    let max_tail: u32 = ctx.tier.pick(8, 9);          // parse space
+    let pair_r: usize = ctx.tier.pick(6, 7);           // rsync pairs
+    let pair_h: usize = ctx.tier.pick(5, 6);           // https pairs
+    let join_r: usize = 6;                             // rsync join bases
+    let join_h: usize = ctx.tier.pick(4, 5);           // https join bases
+    let arg_len: u32 = ctx.tier.pick(4, 5);            // join arguments
+    let tri_tail: u32 = ctx.tier.pick(8, 9);           // triples, 3-symbol alphabet
+    let store_r = pair_r.max(join_r); let store_h = pair_h.max(join_h);
 
     // ---------------------------------------------------------------- 1. parse
-    let max_tail: u32 = ctx.tier.pick(7, 8);
-    let store_tail: usize = 6;
     let sp = ctx.space("parse",
         "every scheme-variant (8) ++ tail over {a,A,b,/,.,:,SPACE} up to the length bound, offered to Rsync::from_slice and Https::from_slice; unary oracles (text, accessors, parent) on every accepted URI; non-trivial = texts accepted by one of the parsers (all texts are distinct by construction)");
     let total = seq_count(SIGMA.len() as u64, max_tail);
-    let acc_r: Mutex<Vec<(usize, u64, usize, Vec<u8>)>> = Mutex::new(Vec::new());
-    let acc_h: Mutex<Vec<(usize, u64, usize, Vec<u8>)>> = Mutex::new(Vec::new());
-    par_chunks(total, 1 << 14, |lo, hi| {
+    let acc_r: Stored = Mutex::new(Vec::new());
+    let acc_h: Stored = Mutex::new(Vec::new());
+    let chunk = 1u64 << 13;
+    batched(&ctx, total.div_ceil(chunk) as usize, 1024, |c, fl| {
+        let lo = c as u64 * chunk; let hi = (lo + chunk).min(total);
         let mut oc: Oc = BTreeMap::new();
         let mut idx = Vec::new(); let mut text: Vec<u8> = Vec::new();
         let (mut st_r, mut st_h) = (Vec::new(), Vec::new());
@@ -337,25 +355,25 @@ fn main() {
                 let wit = || format!("text={:?}", s(t));
                 let mut accepted = false;
                 match guard(|| Rsync::from_slice(t)) {
-                    Err(p) => ctx.fail("C12.rsync.parse.nopanic", wit(), p),
+                    Err(p) => fl.fail("C12.rsync.parse.nopanic", wit(), p),
                     Ok(Err(_)) => {
                         if model_rsync(t).is_ok() { bump(&mut oc, "rsync-rejected-though-grammatical") } else { bump(&mut oc, "rsync-rejected") }
                     }
                     Ok(Ok(u)) => {
                         bump(&mut oc, "rsync-accepted"); accepted = true;
-                        unary_rsync(&ctx, t, &u, &wit, &mut oc);
-                        if idx.len() <= store_tail && model_rsync(t).is_ok() { st_r.push((idx.len(), i, si, text.clone())) }
+                        unary_rsync(fl, t, &u, &wit, &mut oc);
+                        if idx.len() <= store_r && model_rsync(t).is_ok() { st_r.push((idx.len(), i, si, text.clone())) }
                     }
                 }
                 match guard(|| Https::from_slice(t)) {
-                    Err(p) => ctx.fail("C12.https.parse.nopanic", wit(), p),
+                    Err(p) => fl.fail("C12.https.parse.nopanic", wit(), p),
                     Ok(Err(_)) => {
                         if model_https(t).is_ok() { bump(&mut oc, "https-rejected-though-grammatical") } else { bump(&mut oc, "https-rejected") }
                     }
                     Ok(Ok(u)) => {
                         bump(&mut oc, "https-accepted"); accepted = true;
-                        unary_https(&ctx, t, &u, &wit, &mut oc);
-                        if idx.len() <= store_tail && model_https(t).is_ok() { st_h.push((idx.len(), i, si, text.clone())) }
+                        unary_https(fl, t, &u, &wit, &mut oc);
+                        if idx.len() <= store_h && model_https(t).is_ok() { st_h.push((idx.len(), i, si, text.clone())) }
                     }
                 }
                 if accepted { nt += 1 }
@@ -364,18 +382,12 @@ fn main() {
         sp.evals(2 * (hi - lo) * SCHEMES.len() as u64); sp.nontrivial(nt); sp.merge_outcomes(&oc);
         acc_r.lock().unwrap().extend(st_r); acc_h.lock().unwrap().extend(st_h);
     });
+    let r_by_len = group(acc_r); let h_by_len = group(acc_h);
     sp.set("alphabet", json!("a A b / . : SPACE")); sp.set("scheme_variants", json!(SCHEMES));
+    sp.set("rsync_accepted_by_tail_length", sizes(&r_by_len)); sp.set("https_accepted_by_tail_length", sizes(&h_by_len));
     sp.sample_str(|| "text=\"rsync://a/b/\" -> rsync accepted (authority a, module b, path \"\"), https rejected".into());
     sp.sample_str(|| "text=\"HTTPS://A:/.a\" -> https accepted (authority A:, path /.a), rsync rejected".into());
     sp.done(true, &format!("8 scheme variants x all tails of length <= {max_tail} over 7 symbols, both parsers"));
-
-    let by_len = |m: Mutex<Vec<(usize, u64, usize, Vec<u8>)>>| -> BTreeMap<usize, Vec<Vec<u8>>> {
-        let mut v = m.into_inner().unwrap(); v.sort();
-        let mut out: BTreeMap<usize, Vec<Vec<u8>>> = BTreeMap::new();
-        for (l, _, _, t) in v { out.entry(l).or_default().push(t) }
-        out
-    };
-    let r_by_len = by_len(acc_r); let h_by_len = by_len(acc_h);
 
     // ---------------------------------------------------------------- 2. bytes
     let sp = ctx.space("bytes",
@@ -383,6 +395,7 @@ fn main() {
     {
         let seeds: [&[u8]; 4] = [b"rsync://host/module/path/x", b"RSYNC://h/m/", b"https://host/path/x", b"https://host"];
         let mut oc: Oc = BTreeMap::new(); let mut nt = 0u64;
+        let mut fl = Fails(Vec::new());
         for seed in seeds { for pos in 0..=seed.len() { for b in 0..=255u8 { for ins in [false, true] {
             if !ins && pos == seed.len() { continue }
             let mut t = seed.to_vec();
@@ -390,14 +403,14 @@ fn main() {
             let wit = || format!("hex={}", hex(&t));
             sp.evals(2);
             match guard(|| Rsync::from_slice(&t)) {
-                Err(p) => ctx.fail("C12.rsync.parse.nopanic", wit(), p),
+                Err(p) => fl.fail("C12.rsync.parse.nopanic", wit(), p),
                 Ok(Err(_)) => bump(&mut oc, "rejected"),
-                Ok(Ok(u)) => { bump(&mut oc, "rsync-accepted"); nt += 1; unary_rsync(&ctx, &t, &u, &wit, &mut oc) }
+                Ok(Ok(u)) => { bump(&mut oc, "rsync-accepted"); nt += 1; unary_rsync(&mut fl, &t, &u, &wit, &mut oc) }
             }
             match guard(|| Https::from_slice(&t)) {
-                Err(p) => ctx.fail("C12.https.parse.nopanic", wit(), p),
+                Err(p) => fl.fail("C12.https.parse.nopanic", wit(), p),
                 Ok(Err(_)) => bump(&mut oc, "rejected"),
-                Ok(Ok(u)) => { bump(&mut oc, "https-accepted"); nt += 1; unary_https(&ctx, &t, &u, &wit, &mut oc) }
+                Ok(Ok(u)) => { bump(&mut oc, "https-accepted"); nt += 1; unary_https(&mut fl, &t, &u, &wit, &mut oc) }
             }
         }}}}
         let rb = Rsync::from_slice(b"rsync://host/module/dir").unwrap();
@@ -406,125 +419,127 @@ fn main() {
             sp.evals(2);
             let wit = || format!("base={} arg_hex={}", rb.as_str(), hex(&arg));
             match guard(|| rb.join(&arg)) {
-                Err(p) => ctx.fail("C12.rsync.join.valid", wit(), p),
+                Err(p) => fl.fail("C12.rsync.join.valid", wit(), p),
                 Ok(Err(_)) => bump(&mut oc, "join-rejected"),
-                Ok(Ok(r)) => { bump(&mut oc, "join-accepted"); nt += 1; ctx.check("C12.rsync.join.valid", wit, || valid_rsync(&r)); }
+                Ok(Ok(r)) => { bump(&mut oc, "join-accepted"); nt += 1; fl.check("C12.rsync.join.valid", &wit, || valid_rsync(&r)); }
             }
             let wit = || format!("base={} arg_hex={}", hb.as_str(), hex(&arg));
             match guard(|| hb.join(&arg)) {
-                Err(p) => ctx.fail("C12.https.join.valid", wit(), p),
+                Err(p) => fl.fail("C12.https.join.valid", wit(), p),
                 Ok(Err(_)) => bump(&mut oc, "join-rejected"),
-                Ok(Ok(r)) => { bump(&mut oc, "join-accepted"); nt += 1; ctx.check("C12.https.join.valid", wit, || valid_https(&r)); }
+                Ok(Ok(r)) => { bump(&mut oc, "join-accepted"); nt += 1; fl.check("C12.https.join.valid", &wit, || valid_https(&r)); }
             }
         }}
+        for (o, w, d) in fl.0 { ctx.fail(o, w, d) }
         sp.nontrivial(nt); sp.merge_outcomes(&oc);
         sp.sample_str(|| "hex=7273796e633a2f2f686f73742f6d6f64756c652f706174682f40 (…/@): rejected by the library although '@' is not in the documented forbidden list (stricter, not a violation)".into());
         sp.done(true, "256 octets x every position x {substitute, insert} x 4 seeds x 2 parsers; 256 x 3 join arguments x 2 types");
     }
 
     // ----------------------------------------------------------- 3. rsync pairs
-    let cap = ctx.tier.pick(6000usize, 30000);
-    let (r_len, r_texts) = cut(&r_by_len, cap);
-    let ru = mk_ru(&r_texts);
+    let ru = mk_ru(&upto(&r_by_len, pair_r));
     let sp = ctx.space("rsync.pairs",
-        "all ordered pairs (self, other) of accepted rsync URIs (3 scheme spellings, tails up to the cut length): ==, hash, symmetry, relative_to, is_parent_of against the text model; non-trivial = pairs of different texts that are model-equal, or where relative_to returns Some, or where is_parent_of holds");
+        "all ordered pairs (self, other) of accepted rsync URIs (3 scheme spellings, tails up to the stated length): ==, hash, symmetry, relative_to, is_parent_of against the text model; non-trivial = pairs of different texts that are model-equal, or where relative_to returns Some, or where is_parent_of holds");
     {
         let n = ru.len();
-        (0..n).into_par_iter().for_each(|i| {
+        batched(&ctx, n, 2048, |i, fl| {
             let a = &ru[i];
             let mut oc: Oc = BTreeMap::new(); let mut nt = 0u64;
+            let (mut c_ident, mut c_eq, mut c_uneq, mut c_none, mut c_empty, mut c_path, mut c_par) = (0u64, 0u64, 0u64, 0u64, 0u64, 0u64, 0u64);
             for j in 0..n {
                 let b = &ru[j];
                 let wit = || format!("self={} other={}", s(&a.text), s(&b.text));
                 let obs = guard(|| {
                     let eq = a.uri == b.uri; let eq_rev = b.uri == a.uri;
-                    let rel = a.uri.relative_to(&b.uri).map(|p| p.to_string());
+                    let rel = a.uri.relative_to(&b.uri);
                     let par = a.uri.is_parent_of(&b.uri);
                     let par_rep = ru[a.rep].uri.is_parent_of(&ru[b.rep].uri);
                     (eq, eq_rev, rel, par, par_rep)
                 });
-                let (eq, eq_rev, rel, par, par_rep) = match obs { Ok(o) => o, Err(p) => { ctx.fail("C12.rsync.pair.nopanic", wit(), p); continue } };
+                let (eq, eq_rev, rel, par, par_rep) = match obs { Ok(o) => o, Err(p) => { fl.fail("C12.rsync.pair.nopanic", wit(), p); continue } };
                 let m_eq = a.pkey == b.pkey && a.path == b.path;
                 let m_slash_eq = a.pkey == b.pkey && strip1(&a.path) == strip1(&b.path);
                 let m_par = beneath(&a.pkey, &a.dir, &b.pkey, &b.path);
-                if eq != m_eq { ctx.fail("C12.rsync.eq.model", wit(), format!("== is {eq}, text model (scheme+authority case-insensitive, rest exact) says {m_eq}")) }
-                if eq != eq_rev { ctx.fail("C12.rsync.eq.symmetric", wit(), format!("a==b is {eq}, b==a is {eq_rev}")) }
-                if eq && a.hash != b.hash { ctx.fail("C12.rsync.eq.hash", wit(), "equal URIs hash differently") }
-                let rel_empty = rel.as_deref() == Some("");
+                if eq != m_eq { fl.fail("C12.rsync.eq.model", wit(), format!("== is {eq}, text model (scheme+authority case-insensitive, rest exact) says {m_eq}")) }
+                if eq != eq_rev { fl.fail("C12.rsync.eq.symmetric", wit(), format!("a==b is {eq}, b==a is {eq_rev}")) }
+                if eq && a.hash != b.hash { fl.fail("C12.rsync.eq.hash", wit(), "equal URIs hash differently") }
+                let rel_empty = rel == Some("");
                 if rel_empty != m_slash_eq {
-                    ctx.fail("C12.rsync.relative_to.empty", wit(), format!("relative_to = {rel:?}; equal up to one trailing slash: {m_slash_eq}"));
+                    fl.fail("C12.rsync.relative_to.empty", wit(), format!("relative_to = {rel:?}; equal up to one trailing slash: {m_slash_eq}"));
                 }
-                if let Some(p) = rel.as_deref() { if !p.is_empty() {
-                    ctx.check("C12.rsync.relative_to.join", wit, || {
+                if let Some(p) = rel { if !p.is_empty() {
+                    fl.check("C12.rsync.relative_to.join", &wit, || {
                         let back = b.uri.join(p.as_bytes()).map_err(|e| format!("relative_to = Some({p:?}) but other.join fails: {e}"))?;
                         if !(back == a.uri) { return Err(format!("relative_to = Some({p:?}) but other.join gives {:?} which is != self", back.as_str())) }
                         Ok(())
                     });
                 }}
-                if par && eq { ctx.fail("C12.rsync.is_parent_of.irreflexive", wit(), "is_parent_of holds between equal URIs") }
-                if par != m_par { ctx.fail("C12.rsync.is_parent_of.model", wit(), format!("self.is_parent_of(other) = {par}; text model (other lies beneath self under this equality) says {m_par}")) }
+                if par && eq { fl.fail("C12.rsync.is_parent_of.irreflexive", wit(), "is_parent_of holds between equal URIs") }
+                if par != m_par { fl.fail("C12.rsync.is_parent_of.model", wit(), format!("self.is_parent_of(other) = {par}; text model (other lies beneath self under this equality) says {m_par}")) }
                 if par != par_rep {
-                    ctx.fail("C12.rsync.is_parent_of.eq_invariant", wit(), format!("is_parent_of = {par} but {par_rep} for the equal URIs {} / {}", s(&ru[a.rep].text), s(&ru[b.rep].text)));
+                    fl.fail("C12.rsync.is_parent_of.eq_invariant", wit(), format!("is_parent_of = {par} but {par_rep} for the equal URIs {} / {}", s(&ru[a.rep].text), s(&ru[b.rep].text)));
                 }
                 if i != j && (m_eq || rel.is_some() || par) { nt += 1 }
-                bump(&mut oc, if eq { if i == j { "identical" } else { "equal-different-text" } } else { "unequal" });
-                match rel.as_deref() { None => bump(&mut oc, "relative_to-none"), Some("") => bump(&mut oc, "relative_to-empty"), Some(_) => bump(&mut oc, "relative_to-path") }
-                if par { bump(&mut oc, "is-parent") }
+                if eq { if i == j { c_ident += 1 } else { c_eq += 1 } } else { c_uneq += 1 }
+                match rel { None => c_none += 1, Some("") => c_empty += 1, Some(_) => c_path += 1 }
+                if par { c_par += 1 }
             }
+            for (k, v) in [("identical", c_ident), ("equal-different-text", c_eq), ("unequal", c_uneq), ("relative_to-none", c_none),
+                           ("relative_to-empty", c_empty), ("relative_to-path", c_path), ("is-parent", c_par)] { if v > 0 { oc.insert(k, v); } }
             sp.evals(n as u64); sp.nontrivial(nt); sp.merge_outcomes(&oc);
         });
-        sp.set("uris", json!(n)); sp.set("tail_length_cut", json!(r_len)); sp.set("cap", json!(cap));
+        sp.set("uris", json!(n)); sp.set("tail_length", json!(pair_r));
         sp.sample_str(|| format!("first/last URI of the set: {} … {}", s(&ru[0].text), s(&ru[n - 1].text)));
-        sp.done(true, &format!("all {n}^2 ordered pairs of the rsync URIs with tail length <= {r_len}"));
+        sp.done(true, &format!("all {n}^2 ordered pairs of the accepted rsync URIs with tail length <= {pair_r}"));
     }
+    drop(ru);
 
     // ----------------------------------------------------------- 3b. https pairs
-    let (h_len, h_texts) = cut(&h_by_len, cap);
-    let hu = mk_hu(&h_texts);
+    let hu = mk_hu(&upto(&h_by_len, pair_h));
     let sp = ctx.space("https.pairs",
-        "all ordered pairs of accepted https URIs (2 scheme spellings, tails up to the cut length): ==, hash, symmetry, eq_authority against the text model; non-trivial = pairs of different texts that are model-equal or share the authority");
+        "all ordered pairs of accepted https URIs (2 scheme spellings, tails up to the stated length): ==, hash, symmetry, eq_authority against the text model; non-trivial = pairs of different texts that are model-equal or share the authority");
     {
         let n = hu.len();
-        (0..n).into_par_iter().for_each(|i| {
+        batched(&ctx, n, 2048, |i, fl| {
             let a = &hu[i];
             let mut oc: Oc = BTreeMap::new(); let mut nt = 0u64;
+            let (mut c_ident, mut c_eq, mut c_auth, mut c_uneq) = (0u64, 0u64, 0u64, 0u64);
             for j in 0..n {
                 let b = &hu[j];
                 let wit = || format!("a={} b={}", s(&a.text), s(&b.text));
                 let obs = guard(|| (a.uri == b.uri, b.uri == a.uri, a.uri.eq_authority(&b.uri)));
-                let (eq, eq_rev, eqa) = match obs { Ok(o) => o, Err(p) => { ctx.fail("C12.https.pair.nopanic", wit(), p); continue } };
+                let (eq, eq_rev, eqa) = match obs { Ok(o) => o, Err(p) => { fl.fail("C12.https.pair.nopanic", wit(), p); continue } };
                 let m_eq = a.pkey == b.pkey && a.path == b.path;
-                if eq != m_eq { ctx.fail("C12.https.eq.model", wit(), format!("== is {eq}, text model says {m_eq}")) }
-                if eq != eq_rev { ctx.fail("C12.https.eq.symmetric", wit(), format!("a==b is {eq}, b==a is {eq_rev}")) }
-                if eq && a.hash != b.hash { ctx.fail("C12.https.eq.hash", wit(), "equal URIs hash differently") }
-                if eqa != (a.auth_lc == b.auth_lc) { ctx.fail("C12.https.eq_authority", wit(), format!("eq_authority = {eqa}")) }
+                if eq != m_eq { fl.fail("C12.https.eq.model", wit(), format!("== is {eq}, text model says {m_eq}")) }
+                if eq != eq_rev { fl.fail("C12.https.eq.symmetric", wit(), format!("a==b is {eq}, b==a is {eq_rev}")) }
+                if eq && a.hash != b.hash { fl.fail("C12.https.eq.hash", wit(), "equal URIs hash differently") }
+                if eqa != (a.auth_lc == b.auth_lc) { fl.fail("C12.https.eq_authority", wit(), format!("eq_authority = {eqa}")) }
                 if i != j && (m_eq || a.auth_lc == b.auth_lc) { nt += 1 }
-                bump(&mut oc, if eq { if i == j { "identical" } else { "equal-different-text" } } else if eqa { "same-authority-unequal" } else { "unequal" });
+                if eq { if i == j { c_ident += 1 } else { c_eq += 1 } } else if eqa { c_auth += 1 } else { c_uneq += 1 }
             }
+            for (k, v) in [("identical", c_ident), ("equal-different-text", c_eq), ("same-authority-unequal", c_auth), ("unequal", c_uneq)] { if v > 0 { oc.insert(k, v); } }
             sp.evals(n as u64); sp.nontrivial(nt); sp.merge_outcomes(&oc);
         });
-        sp.set("uris", json!(n)); sp.set("tail_length_cut", json!(h_len)); sp.set("cap", json!(cap));
+        sp.set("uris", json!(n)); sp.set("tail_length", json!(pair_h));
         sp.sample_str(|| format!("first/last URI of the set: {} … {}", s(&hu[0].text), s(&hu[n - 1].text)));
-        sp.done(true, &format!("all {n}^2 ordered pairs of the https URIs with tail length <= {h_len}"));
+        sp.done(true, &format!("all {n}^2 ordered pairs of the accepted https URIs with tail length <= {pair_h}"));
     }
+    drop(hu);
 
     // ------------------------------------------------------------------ 4. join
-    let arg_len: u32 = ctx.tier.pick(4, 5);
     let args = all_strings(&SIGMA, arg_len);
-    let jcap = ctx.tier.pick(3000usize, 12000);
-    let (rj_len, rj_texts) = cut(&r_by_len, jcap);
-    let rj = mk_ru(&rj_texts);
+    let rj = mk_ru(&upto(&r_by_len, join_r));
     let sp = ctx.space("rsync.join",
-        "all (base, arg): base over the accepted rsync URIs up to the cut, arg over every string over {a,A,b,/,.,:,SPACE} up to the length bound: result validity/re-parse, lies-beneath-base, parent(join(base, one segment)), relative_to round trip; non-trivial = joins with a non-empty argument that succeed");
+        "all (base, arg): base over the accepted rsync URIs up to the stated tail length, arg over every string over {a,A,b,/,.,:,SPACE} up to the length bound: result validity/re-parse, lies-beneath-base, parent(join(base, one segment)), relative_to round trip; non-trivial = joins with a non-empty argument that succeed");
     {
         let n = rj.len();
-        (0..n).into_par_iter().for_each(|i| {
+        batched(&ctx, n, 2048, |i, fl| {
             let a = &rj[i];
             let mut oc: Oc = BTreeMap::new(); let mut nt = 0u64;
             for p in &args {
                 let wit = || format!("base={} arg={:?}", s(&a.text), s(p));
                 let r = match guard(|| a.uri.join(p)) {
-                    Err(pn) => { ctx.fail("C12.rsync.join.valid", wit(), pn); continue }
+                    Err(pn) => { fl.fail("C12.rsync.join.valid", wit(), pn); continue }
                     Ok(Err(_)) => {
                         // concatenation per the documentation
                         let mut cat = a.text.clone(); if !cat.ends_with(b"/") { cat.push(b'/') } cat.extend_from_slice(p);
@@ -533,20 +548,20 @@ fn main() {
                     }
                     Ok(Ok(r)) => r,
                 };
-                if !ctx.check("C12.rsync.join.valid", wit, || valid_rsync(&r)) { continue }
+                if !fl.check("C12.rsync.join.valid", &wit, || valid_rsync(&r)) { continue }
                 if p.is_empty() {
                     bump(&mut oc, "empty-argument");
-                    ctx.check("C12.rsync.join.empty", wit, || if r == a.uri { Ok(()) } else { Err(format!("join with the empty path gave {:?}", r.as_str())) });
+                    fl.check("C12.rsync.join.empty", &wit, || if r == a.uri { Ok(()) } else { Err(format!("join with the empty path gave {:?}", r.as_str())) });
                     continue
                 }
                 nt += 1; bump(&mut oc, "joined");
                 let rm = model_rsync(r.as_slice()).expect("validated above");
-                ctx.check("C12.rsync.join.beneath", wit, || {
+                fl.check("C12.rsync.join.beneath", &wit, || {
                     if !a.uri.is_parent_of(&r) { return Err(format!("base is not is_parent_of the result {:?}", r.as_str())) }
                     if !beneath(&a.pkey, &a.dir, &rsync_prefix_key(&rm), rm.path) { return Err(format!("result {:?} does not lie beneath the base (text model)", r.as_str())) }
                     Ok(())
                 });
-                ctx.check("C12.rsync.relative_to.join", wit, || {
+                fl.check("C12.rsync.relative_to.join", &wit, || {
                     match r.relative_to(&a.uri) {
                         Some(q) if !q.is_empty() => {
                             let back = a.uri.join(q.as_bytes()).map_err(|e| format!("join of relative path {q:?} fails: {e}"))?;
@@ -555,10 +570,9 @@ fn main() {
                         _ => Ok(())   // only non-empty answers are constrained by this clause
                     }
                 });
-                let single = !strip1(p).contains(&b'/');
-                if single {
+                if !strip1(p).contains(&b'/') {
                     bump(&mut oc, "single-segment");
-                    ctx.check("C12.rsync.join.parent", wit, || {
+                    fl.check("C12.rsync.join.parent", &wit, || {
                         let par = r.parent().ok_or_else(|| format!("result {:?} has no parent", r.as_str()))?;
                         let pm = model_rsync(par.as_slice()).map_err(|e| e.to_string())?;
                         if rsync_prefix_key(&pm) != a.pkey || strip1(pm.path) != strip1(&a.path) {
@@ -570,48 +584,52 @@ fn main() {
             }
             sp.evals(args.len() as u64); sp.nontrivial(nt); sp.merge_outcomes(&oc);
         });
-        sp.set("bases", json!(n)); sp.set("arguments", json!(args.len())); sp.set("base_tail_length_cut", json!(rj_len));
+        sp.set("bases", json!(n)); sp.set("arguments", json!(args.len())); sp.set("base_tail_length", json!(join_r));
         sp.sample_str(|| "base=rsync://a/b/a arg=\"b/\" -> rsync://a/b/a/b/".into());
-        sp.done(true, &format!("{n} bases (tail length <= {rj_len}) x all {} arguments of length <= {arg_len}", args.len()));
+        sp.done(true, &format!("{n} bases (tail length <= {join_r}) x all {} arguments of length <= {arg_len}", args.len()));
     }
+    drop(rj);
 
-    let (hj_len, hj_texts) = cut(&h_by_len, jcap);
-    let hj = mk_hu(&hj_texts);
+    let hj = mk_hu(&upto(&h_by_len, join_h));
     let sp = ctx.space("https.join",
-        "all (base, arg): base over the accepted https URIs up to the cut, arg over every string over the 7-symbol alphabet up to the length bound: result validity/re-parse with the same authority, lies-beneath-base (text model), parent(join(base, one segment)); non-trivial = joins with a non-empty argument that succeed");
+        "all (base, arg): base over the accepted https URIs up to the stated tail length, arg over every string over the 7-symbol alphabet up to the length bound: result validity/re-parse with the same authority, lies-beneath-base (text model), parent(join(base, one segment)); non-trivial = joins with a non-empty argument that succeed");
     {
         let n = hj.len();
-        (0..n).into_par_iter().for_each(|i| {
+        batched(&ctx, n, 2048, |i, fl| {
             let a = &hj[i];
             let a_dir = https_dir(&a.path);
             let mut oc: Oc = BTreeMap::new(); let mut nt = 0u64;
             for p in &args {
                 let wit = || format!("base={} arg={:?}", s(&a.text), s(p));
                 let r = match guard(|| a.uri.join(p)) {
-                    Err(pn) => { ctx.fail("C12.https.join.valid", wit(), pn); continue }
+                    Err(pn) => { fl.fail("C12.https.join.valid", wit(), pn); continue }
                     Ok(Err(_)) => { bump(&mut oc, if p.iter().all(|&b| permitted(b)) { "rejected-though-permitted" } else { "rejected" }); continue }
                     Ok(Ok(r)) => r,
                 };
                 if a.path.is_empty() { bump(&mut oc, "base-without-path") }
-                if !ctx.check("C12.https.join.valid", wit, || valid_https(&r)) { continue }
+                if !fl.check("C12.https.join.valid", &wit, || valid_https(&r)) { continue }
                 let rm = model_https(r.as_slice()).expect("validated above");
                 if p.is_empty() {
                     bump(&mut oc, "empty-argument");
-                    ctx.check("C12.https.join.empty", wit, || {
+                    fl.check("C12.https.join.empty", &wit, || {
                         if https_prefix_key(&rm) == a.pkey && strip1(rm.path) == strip1(&a.path) { Ok(()) }
                         else { Err(format!("join with the empty path gave {:?}", r.as_str())) }
                     });
                     continue
                 }
                 nt += 1; bump(&mut oc, "joined");
-                ctx.check("C12.https.join.beneath", wit, || {
-                    if !beneath(&a.pkey, &a_dir, &https_prefix_key(&rm), rm.path) { return Err(format!("result {:?} does not lie beneath the base (text model)", r.as_str())) }
+                // An argument made of slashes only names the base directory
+                // itself; anything else must lie strictly beneath it.
+                let strict = p.iter().any(|&b| b != b'/');
+                fl.check("C12.https.join.beneath", &wit, || {
+                    let inside = https_prefix_key(&rm) == a.pkey && rm.path.starts_with(&a_dir) && (!strict || rm.path.len() > a_dir.len());
+                    if !inside { return Err(format!("result {:?} does not lie beneath the base (text model)", r.as_str())) }
                     Ok(())
                 });
-                let single = !strip1(p).contains(&b'/') && !strip1(p).is_empty();
-                if single {
+                let seg = strip1(p);
+                if !seg.contains(&b'/') && !seg.is_empty() {
                     bump(&mut oc, "single-segment");
-                    ctx.check("C12.https.join.parent", wit, || {
+                    fl.check("C12.https.join.parent", &wit, || {
                         let par = r.parent().ok_or_else(|| format!("result {:?} has no parent", r.as_str()))?;
                         let pm = model_https(par.as_slice()).map_err(|e| e.to_string())?;
                         if https_prefix_key(&pm) != a.pkey || strip1(pm.path) != strip1(&a.path) {
@@ -623,84 +641,84 @@ fn main() {
             }
             sp.evals(args.len() as u64); sp.nontrivial(nt); sp.merge_outcomes(&oc);
         });
-        sp.set("bases", json!(n)); sp.set("arguments", json!(args.len())); sp.set("base_tail_length_cut", json!(hj_len));
+        sp.set("bases", json!(n)); sp.set("arguments", json!(args.len())); sp.set("base_tail_length", json!(join_h));
         sp.sample_str(|| "base=https://a arg=\"b\" -> must be https://a/b (authority a)".into());
-        sp.done(true, &format!("{n} bases (tail length <= {hj_len}) x all {} arguments of length <= {arg_len}", args.len()));
+        sp.done(true, &format!("{n} bases (tail length <= {join_h}) x all {} arguments of length <= {arg_len}", args.len()));
     }
+    drop(hj);
 
     // --------------------------------------------------------------- 5. triples
     // A denser domain: 2 scheme spellings x tails over {a, A, /}, so that
     // equal-but-differently-spelled URIs and parent chains of depth >= 3 occur.
-    let tcap = ctx.tier.pick(420usize, 1300);
     let tri_alpha = [b'a', b'A', b'/'];
-    let build = |schemes: &[&str], is_rsync: bool| -> (usize, Vec<Vec<u8>>) {
-        let mut by: BTreeMap<usize, Vec<Vec<u8>>> = BTreeMap::new();
-        for tail in all_strings(&tri_alpha, 8) {
+    let build = |schemes: &[&str], is_rsync: bool, max: u32| -> Vec<Vec<u8>> {
+        let mut out = Vec::new();
+        for tail in all_strings(&tri_alpha, max) {
             for sch in schemes {
                 let mut t = sch.as_bytes().to_vec(); t.extend_from_slice(&tail);
                 let ok = if is_rsync { Rsync::from_slice(&t).is_ok() && model_rsync(&t).is_ok() } else { Https::from_slice(&t).is_ok() && model_https(&t).is_ok() };
-                if ok { by.entry(tail.len()).or_default().push(t) }
+                if ok { out.push(t) }
             }
         }
-        cut(&by, tcap)
+        out
     };
-    let (tr_len, tr_texts) = build(&["rsync://", "RSYNC://"], true);
-    let tr = mk_ru(&tr_texts);
+    let tr = mk_ru(&build(&["rsync://", "RSYNC://"], true, tri_tail));
     let sp = ctx.space("rsync.triples",
-        "all ordered triples (a,b,c) of accepted rsync URIs over {rsync://, RSYNC://} x tails over {a,A,/}: transitivity of == and of is_parent_of on the relations computed by the real code; non-trivial = triples of three different texts in which both premises of one of the two implications hold");
+        "all ordered triples (a,b,c) of accepted rsync URIs over {rsync://, RSYNC://} x tails over {a,A,/}: transitivity of == and of is_parent_of on the relations computed by the real code (n^2 calls each); non-trivial = triples of three different texts in which both premises of one of the two implications hold");
     {
         let n = tr.len();
         let eqm: Vec<bool> = (0..n * n).into_par_iter().map(|k| tr[k / n].uri == tr[k % n].uri).collect();
         let parm: Vec<bool> = (0..n * n).into_par_iter().map(|k| tr[k / n].uri.is_parent_of(&tr[k % n].uri)).collect();
         sp.evals(2 * (n * n) as u64);
-        (0..n).into_par_iter().for_each(|a| {
-            let mut nt = 0u64; let mut oc: Oc = BTreeMap::new();
+        batched(&ctx, n, 4096, |a, fl| {
+            let mut nt = 0u64; let (mut c_eq, mut c_par, mut c_none) = (0u64, 0u64, 0u64);
             for b in 0..n {
                 let (eab, pab) = (eqm[a * n + b], parm[a * n + b]);
-                if !eab && !pab { continue }
+                if !eab && !pab { c_none += n as u64; continue }
                 for c in 0..n {
                     let distinct = a != b && b != c && a != c;
                     if eab && eqm[b * n + c] {
-                        if distinct { nt += 1; bump(&mut oc, "eq-chain") }
-                        if !eqm[a * n + c] { ctx.fail("C12.rsync.eq.transitive", format!("a={} b={} c={}", s(&tr[a].text), s(&tr[b].text), s(&tr[c].text)), "a==b and b==c but a!=c") }
+                        if distinct { nt += 1; c_eq += 1 }
+                        if !eqm[a * n + c] { fl.fail("C12.rsync.eq.transitive", format!("a={} b={} c={}", s(&tr[a].text), s(&tr[b].text), s(&tr[c].text)), "a==b and b==c but a!=c") }
                     }
                     if pab && parm[b * n + c] {
-                        if distinct { nt += 1; bump(&mut oc, "parent-chain") }
-                        if !parm[a * n + c] { ctx.fail("C12.rsync.is_parent_of.transitive", format!("a={} b={} c={}", s(&tr[a].text), s(&tr[b].text), s(&tr[c].text)), "a parent of b, b parent of c, but a not parent of c") }
+                        if distinct { nt += 1; c_par += 1 }
+                        if !parm[a * n + c] { fl.fail("C12.rsync.is_parent_of.transitive", format!("a={} b={} c={}", s(&tr[a].text), s(&tr[b].text), s(&tr[c].text)), "a parent of b, b parent of c, but a not parent of c") }
                     }
                 }
             }
-            sp.evals((n * n) as u64); sp.nontrivial(nt); sp.merge_outcomes(&oc);
+            sp.evals((n * n) as u64); sp.nontrivial(nt);
+            sp.outcomes_n("eq-chain", c_eq); sp.outcomes_n("parent-chain", c_par); sp.outcomes_n("first-premise-false", c_none);
         });
-        sp.set("uris", json!(n)); sp.set("tail_length_cut", json!(tr_len));
+        sp.set("uris", json!(n)); sp.set("tail_length", json!(tri_tail));
         sp.sample_str(|| "a=rsync://a/a/ b=RSYNC://A/a/a c=rsync://a/a/a/A : a parent of b, b parent of c".into());
-        sp.done(true, &format!("all {n}^3 triples of the rsync URIs with tails over {{a,A,/}} of length <= {tr_len}"));
+        sp.done(true, &format!("all {n}^3 triples of the accepted rsync URIs with tails over {{a,A,/}} of length <= {tri_tail}"));
     }
-    let (th_len, th_texts) = build(&["https://", "HTTPS://"], false);
-    let th = mk_hu(&th_texts);
+    let th_tail = tri_tail - 2;
+    let th = mk_hu(&build(&["https://", "HTTPS://"], false, th_tail));
     let sp = ctx.space("https.triples",
-        "all ordered triples of accepted https URIs over {https://, HTTPS://} x tails over {a,A,/}: transitivity of ==; non-trivial = triples of three different texts with a==b and b==c");
+        "all ordered triples of accepted https URIs over {https://, HTTPS://} x tails over {a,A,/}: transitivity of == on the relation computed by the real code; non-trivial = triples of three different texts with a==b and b==c");
     {
         let n = th.len();
         let eqm: Vec<bool> = (0..n * n).into_par_iter().map(|k| th[k / n].uri == th[k % n].uri).collect();
         sp.evals((n * n) as u64);
-        (0..n).into_par_iter().for_each(|a| {
-            let mut nt = 0u64; let mut oc: Oc = BTreeMap::new();
+        batched(&ctx, n, 4096, |a, fl| {
+            let mut nt = 0u64; let (mut c_eq, mut c_none) = (0u64, 0u64);
             for b in 0..n {
-                if !eqm[a * n + b] { bump(&mut oc, "no-premise"); continue }
+                if !eqm[a * n + b] { c_none += n as u64; continue }
                 for c in 0..n {
                     if eqm[b * n + c] {
-                        if a != b && b != c && a != c { nt += 1; bump(&mut oc, "eq-chain") }
-                        if !eqm[a * n + c] { ctx.fail("C12.https.eq.transitive", format!("a={} b={} c={}", s(&th[a].text), s(&th[b].text), s(&th[c].text)), "a==b and b==c but a!=c") }
+                        if a != b && b != c && a != c { nt += 1; c_eq += 1 }
+                        if !eqm[a * n + c] { fl.fail("C12.https.eq.transitive", format!("a={} b={} c={}", s(&th[a].text), s(&th[b].text), s(&th[c].text)), "a==b and b==c but a!=c") }
                     }
                 }
             }
-            sp.evals((n * n) as u64); sp.nontrivial(nt); sp.merge_outcomes(&oc);
+            sp.evals((n * n) as u64); sp.nontrivial(nt);
+            sp.outcomes_n("eq-chain", c_eq); sp.outcomes_n("first-premise-false", c_none);
         });
-        sp.set("uris", json!(n)); sp.set("tail_length_cut", json!(th_len));
+        sp.set("uris", json!(n)); sp.set("tail_length", json!(th_tail));
         sp.sample_str(|| "a=https://aA/ b=HTTPS://Aa/ c=https://AA/ : all equal".into());
-        sp.done(true, &format!("all {n}^3 triples of the https URIs with tails over {{a,A,/}} of length <= {th_len}"));
+        sp.done(true, &format!("all {n}^3 triples of the accepted https URIs with tails over {{a,A,/}} of length <= {th_tail}"));
     }
-    let _ = thorough;
     ctx.finish();
 }
